@@ -286,3 +286,39 @@ Example C13_example_client_trace :
    TConnect 2 true; TSend 0 1 2 false; TClose 2; TSleep 20;
    TConnect 3 true; TSend 0 2 3 true; TNew 2; TBind 2 3; TRecv 2 3 true; TClose 3; TDestroy 0; TDestroy 2]%nat.
 Proof. exact client_example_trace. Qed.
+
+(* ---- source-level tie of the daemon side of a retried decode (tools/facts/cfun.py -> gen/GenCredFun.v: TRANSLATED
+        from the C text of dec.c on every run; CredPipe.v): what RetryModel.dec_attempt assumes of munged per attempt -
+        the record is rolled back iff the reply of a SUCCESSFUL decode could not be sent, whatever the retry count -
+        the retry limit and the retry exemption of the replay check ---- *)
+From MV Require Import CredFun CredPipe.
+From MV.gen Require Import GenCredFun.
+Theorem C13_source_attempt_is_model :
+  forall (hmac : N -> bytes -> bytes -> bytes) (sha1 : bytes -> bytes) (blk_dec : N -> bytes -> bytes -> bytes)
+         (zdecomp : N -> bytes -> N -> option bytes) (cf : conf) (mem : N -> N -> bool) (pu pg now : N)
+         (cred : bytes) (rs : CredModel.rstate) (i : nat),
+  let run so := src_dec_process_msg (dec_ops hmac sha1 blk_dec zdecomp cf mem pu pg now so) (dinit (attempt_msg cred i) rs) in
+  let att f := dec_attempt hmac sha1 blk_dec zdecomp cf mem cred pu pg now rs i f in
+  att (Some ReqCut) = (rs, None) /\
+  att (Some RspLost) = (d_rs (snd (run true)), None) /\
+  att (Some RspSendFailed) = (d_rs (snd (run false)), None) /\
+  att None = (d_rs (snd (run true)), Some (d_msg (snd (run true)))).
+Proof. exact dec_attempt_is_source. Qed.
+Print Assumptions C13_source_attempt_is_model.
+Theorem C13_source_decode_control : forall (S : Type) (ops : pipe_ops S) (s : S),
+  src_dec_process_msg ops s = pipe_control ops dec_stage_order soft_err true s.
+Proof. exact src_dec_process_msg_is_pipe. Qed.
+Print Assumptions C13_source_decode_control.
+Theorem C13_source_retry_limit : forall (cf : conf) (m : msg),
+  src_dec_check_retry cf m = ((if c_retry_attempts <? m_retry m then e_socket else 0), m) /\
+  src_enc_check_retry cf m = ((if c_retry_attempts <? m_retry m then e_socket else 0), m).
+Proof. exact (fun cf m => conj (dec_check_retry_is_source cf m) (enc_check_retry_is_source cf m)). Qed.
+Print Assumptions C13_source_retry_limit.
+Theorem C13_source_retry_exemption : forall (cf : conf) (ins en : Z) (m : msg),
+  src_dec_validate_replay cf ins en m =
+  ((if (ins =? 0)%Z then 0
+    else if (ins >? 0)%Z
+         then (if cf_socket_retry cf && (0 <? m_retry m) && (m_retry m <=? c_retry_attempts) then 0 else e_cred_replayed)
+    else if (en =? 12)%Z then e_no_memory else e_snafu), m).
+Proof. exact dec_validate_replay_is_source. Qed.
+Print Assumptions C13_source_retry_exemption.
